@@ -168,6 +168,12 @@ def run(ctx):
         if other_array is not None and position == 'index':
             ctx.count('index_across_roots')
         atom = place(rng, position, ref, root, n, other_array)
+        weak_first = rng.random() < 0.3
+        if weak_first:
+            # an earlier occurrence of the same path in a context that constrains it to PRIMITIVE only: the fault
+            # (if any) then shows at a later occurrence of a path already seen
+            atom = ('bin', 'and', ('bin', gen.pick(rng, ('=', '!=')), ref, ref), atom)
+            ctx.count('weak_first_occurrence')
         if root != A.THIS:
             # every predicate must still mention its own message: a trivial atom on a numeric own field
             own = sorted(k for k, t in schemas[topic][1].items() if t == gen.NUM)[0]
@@ -181,6 +187,8 @@ def run(ctx):
         text = A.render_prop(p2)
         feats = {'api:type_check_references', 'shape:fault-' + (fault or 'none'), 'shape:position-' + position,
                  'shape:event-' + target_pos, 'shape:alias' if through_alias else 'shape:own'}
+        if weak_first:
+            feats.add('shape:weak-first-occurrence')
         ctx.begin_case(feats)
         o = hplapi.outcome(PP.parse, text)
         if o[0] != 'ok':
@@ -215,7 +223,7 @@ def run(ctx):
             msg_types[a] = hplapi.type_token(st, 'A_' + a, rng)
         oc = hplapi.outcome(hp.type_check_references, msg_types)
         cls = hplapi.exc_class(oc)
-        ctx.evaluation(f'{fault}|{position}|{target_pos}|{"alias" if through_alias else "own"}|{len(alts)}',
+        ctx.evaluation(f'{fault}|{position}|{target_pos}|{"alias" if through_alias else "own"}|{len(alts)}|{int(weak_first)}',
                        fault is not None)
         ctx.count('position:' + position)
         ctx.count('event:' + target_pos)
@@ -228,7 +236,7 @@ def run(ctx):
         if fault is None:
             if cls != 'ok':
                 ctx.violation('schema-check-rejects-valid', dict(w, message=str(oc[1])[:200]), feats | {'exc:' + cls})
-            elif oc[1] is not None:
+            elif oc[1] is False:
                 ctx.violation('schema-check-returns-value', w, feats)
             else:
                 ctx.count('valid_passed')
